@@ -56,6 +56,8 @@ import (
 //	A     append the next event (payload id = last id known to this process + 1)
 //	S<s><n>  SaveOffset(sub s, offset of the event n before the latest known one)
 //	C     Close
+//	P     open a second store over the same file (kept open, otherwise unused)
+//	Q     Close that second store
 //
 // A process that ends without C simply exits (that is: the store is never closed).
 type history struct {
@@ -74,6 +76,10 @@ var histories = []history{
 	{Name: "twogen", Ops: "O A Sa0 A C O A Sa0 A Sb0"},
 	// opening a database whose previous process died without closing (hot WAL)
 	{Name: "hotwal", Setup: "O A A Sa0 A Sb1", Ops: "O A Sa0 A C"},
+	// a second store over the same file is opened and closed again while the first one stays
+	// open and goes on writing (never closed): what the survivor acknowledges after the other
+	// one's Close is as durable as before it
+	{Name: "twostores", Setup: "O A Sa0 C", Ops: "O A P Q A Sa0 A Sb0"},
 }
 
 // the second crash level: recovery, one append, one save, close (checkpoint of the recovered WAL)
@@ -194,7 +200,7 @@ func childMain(args []string) {
 		os.Exit(4)
 	}
 	ctx := context.Background()
-	var st *sqlite.SQLiteStore
+	var st, st2 *sqlite.SQLiteStore
 	var ids []int
 	var offs []string
 	fail := func(i int, kind string, err error) {
@@ -241,6 +247,21 @@ func childMain(args []string) {
 				fail(i, "save", err)
 			}
 			say("ack %d save %s", i, jsonOf(map[string]any{"sub": sub, "offset": offs[j]}))
+		case op == "P":
+			say("try %d open2 {}", i)
+			s, err := sqlite.New(db)
+			if err != nil {
+				fail(i, "open2", err)
+			}
+			st2 = s
+			say("ack %d open2 {}", i)
+		case op == "Q":
+			say("try %d close2 {}", i)
+			if err := st2.Close(); err != nil {
+				fail(i, "close2", err)
+			}
+			st2 = nil
+			say("ack %d close2 {}", i)
 		case op == "C":
 			say("try %d close {}", i)
 			if err := st.Close(); err != nil {
@@ -301,7 +322,7 @@ func (m *model) feed(line string) {
 		Error  string `json:"error"`
 	}
 	switch verb + " " + kind {
-	case "try open", "try close", "ack close":
+	case "try open", "try close", "ack close", "try open2", "ack open2", "try close2", "ack close2":
 	case "ack open":
 		var o obs
 		if err := json.Unmarshal([]byte(body), &o); err != nil {
